@@ -566,7 +566,7 @@ def shipped_instructions(case):
 
 # ----------------------------------------------------------------------------------------------
 KNOWN_WITNESSES = {
-    "scale": {"kind": "synthetic", "case": {"nq": 1, "mode": None, "gates": [
+    "scale": {"kind": "synthetic", "full": True, "case": {"nq": 1, "mode": None, "gates": [
         {"name": "RX", "targets": [0], "controls": None, "tl": ["s", "1/1073741824"], "pulses": [["x0", ["s", "1/2"]]]},
         {"name": "RX", "targets": [0], "controls": None, "tl": ["s", "8192"], "pulses": [["x0", ["s", "1/2"]]]}]}},
 }
@@ -911,6 +911,9 @@ class C12(PropertyCheck):
                 return False, "precondition not met (overlapping / malformed / mixed-kind instructions on a channel)"
             if not chans:
                 return False, "no control channel"
+            if not w.get("full") and not all(sep_ok(ws, v) for ws in chans.values()):
+                # witnesses of recorded findings carry "full": true and are judged at full strength
+                return False, "outside the scale hypothesis Sep (the class of the recorded finding), not judged"
             if st != "ok":
                 return True, f"compile raised {payload} for a valid schedule"
             got = {lab: (tl, cf) for lab, tl, cf in payload}
@@ -936,6 +939,8 @@ class C12(PropertyCheck):
                 chans[i] = lst
             if not chans or not all(ws and precondition(ws) for ws in chans.values()):
                 return False, "precondition not met"
+            if not w.get("full") and not all(sep_ok(ws, v) for ws in chans.values()):
+                return False, "outside the scale hypothesis Sep (the class of the recorded finding), not judged"
             st, payload = self._run_direct_impl(inp)
             if st != "ok":
                 return True, f"_concatenate_pulses raised {payload} for a valid schedule"
